@@ -3,11 +3,18 @@ package harness
 // C02 — the client sees exactly the handler's final status; success only if it succeeded.
 
 import (
+	"context"
 	"fmt"
+	"io"
 	"net"
+	"runtime"
 	"strings"
 	"testing"
+	"time"
 	"unicode/utf8"
+
+	pb "github.com/fullstorydev/grpchan/grpchantesting"
+	"google.golang.org/grpc"
 
 	"google.golang.org/grpc/metadata"
 
@@ -23,6 +30,102 @@ type c02Case struct {
 	// clean and an abrupt connection end.
 	Cut      int `json:",omitempty"`
 	CutPhase int `json:",omitempty"`
+	// GC: the final RecvMsg is the caller's last use of the stream (as in a generated
+	// CloseAndRecv) and the garbage collector runs while that call is blocked.
+	GC bool `json:",omitempty"`
+}
+
+//go:noinline
+func lastUseRecv(cs grpc.ClientStream, m *pb.Message) error { return cs.RecvMsg(m) }
+
+//go:noinline
+func c02GCClient(conn grpc.ClientConnInterface, ctx context.Context, kind string, reqs []*pb.Message, out *pb.Message) error {
+	cs, err := conn.NewStream(ctx, streamDescOf(kind), methodOf(kind))
+	if err != nil {
+		return err
+	}
+	for _, r := range reqs {
+		if err := cs.SendMsg(r); err != nil {
+			return err
+		}
+	}
+	if err := cs.CloseSend(); err != nil {
+		return err
+	}
+	// last use of cs: nothing below refers to it
+	return lastUseRecv(cs, out)
+}
+
+// propC02GC: a collection cycle while the caller's last call on a stream is blocked must not
+// change the outcome (the handler's status).
+func propC02GC(c c02Case, o *Outcome) *Outcome {
+	s := &c.S
+	o.class("gc/carrier=%s/kind=%s", c.Carrier, s.Kind)
+	o.NonTrivial = true
+	want := s.Resps[0].Build()
+	final := s.Final.Build()
+	release := make(chan struct{})
+	svc := &Service{Stream: func(kind string, stream grpc.ServerStream) error {
+		for {
+			if err := stream.RecvMsg(new(pb.Message)); err != nil {
+				break
+			}
+			if !clientStreaming(kind) {
+				break
+			}
+		}
+		<-release
+		if kind == kClientStream && final == nil {
+			if err := stream.SendMsg(want); err != nil {
+				return err
+			}
+		}
+		return final
+	}}
+	car := newCarrier(c.Carrier, newServiceDesc(), svc, carrierOpts{})
+	defer car.Close()
+	ctx, cancel := context.WithCancel(context.Background())
+	defer cancel()
+	var reqs []*pb.Message
+	for _, r := range s.Reqs {
+		reqs = append(reqs, r.Build())
+	}
+	out := new(pb.Message)
+	errCh := make(chan error, 1)
+	go func() { errCh <- c02GCClient(car.Conn, ctx, s.Kind, reqs, out) }()
+	// let the client reach its blocking receive, then collect while it is parked there
+	for i := 0; i < 3; i++ {
+		time.Sleep(time.Millisecond)
+		runtime.GC()
+	}
+	time.Sleep(time.Millisecond)
+	close(release)
+	var err error
+	select {
+	case err = <-errCh:
+	case <-time.After(stallBound):
+		return o.failf("%s/%s: client did not return: %s", c.Carrier, s.Kind, goroutineDump())
+	}
+	so := observeErr(err)
+	o.Observed = so
+	e := modelScript(s)
+	if e.Code == codes.OK {
+		ok := err == nil
+		if s.Kind == kServerStream {
+			ok = err == io.EOF
+		}
+		if !ok {
+			return o.failf("%s/%s: handler succeeded, nobody cancelled, yet the caller's last RecvMsg (with a GC cycle while it was blocked) returned %s", c.Carrier, s.Kind, so.Raw)
+		}
+		if s.Kind == kClientStream && !sameMsg(out, want) {
+			return o.failf("%s/%s: wrong response message", c.Carrier, s.Kind)
+		}
+		return o
+	}
+	if so.Code != uint32(e.Code) {
+		return o.failf("%s/%s: handler returned code %d, the caller's last RecvMsg (GC while blocked) returned %s", c.Carrier, s.Kind, e.Code, so.Raw)
+	}
+	return o
 }
 
 func scriptSuccess(s *Script, e *Expect, o *Obs) bool {
@@ -164,6 +267,9 @@ func propC02(c c02Case) *Outcome {
 	if c.Cut > 0 {
 		return propC02Cut(c, o)
 	}
+	if c.GC {
+		return propC02GC(c, o)
+	}
 	s := &c.S
 	e := modelScript(s)
 	o.class("carrier=%s", c.Carrier)
@@ -271,6 +377,12 @@ func kfHTTPUnaryMsgWhitespace(carrier string, s *Script, e *Expect, o *Obs) stri
 }
 
 func genC02(t *rapid.T) c02Case {
+	if rapid.IntRange(0, 39).Draw(t, "gc") == 0 {
+		c := c02Case{GC: true, Carrier: rapid.SampledFrom(sutCarriers).Draw(t, "carrier"),
+			S: genScript(t, scriptGenOpts{MaxMsg: 100, MDKeys: 0, FewOps: true, NoEarly: true, PlainStatus: true, OnlyKinds: []string{kClientStream, kServerStream}})}
+		c.S.HOps = nil
+		return c
+	}
 	if rapid.IntRange(0, 9).Draw(t, "fault") == 0 {
 		c := c02Case{Carrier: rapid.SampledFrom([]string{cHTTP, cHTTPMux}).Draw(t, "carrier"),
 			S: genScript(t, scriptGenOpts{MaxMsg: 300, MDKeys: 1, FewOps: true, NoEarly: true, PlainStatus: true})}
@@ -295,7 +407,7 @@ func init() { registerReplay("C02", propC02) }
 
 const c02Rule = "rapid-generated cooperative scripts (kind x request list x handler op order x final outcome: nil/status incl. out-of-range codes, odd messages, details/plain error/context errors/io.EOF) on inproc, httpgrpc.Server and HandleServices; " +
 	"oracle = model of the handler's returned status (cross-checked on grpc-go over bufconn when the SUT deviates) in both directions (equality; success implies handler success and complete response); " +
-	"plus fault sequences: successful HTTP replies cut short at evenly spaced byte offsets (every offset in the thorough tier) with clean and abrupt connection ends - never success, delivered messages an intact prefix; " +
+	"plus GC cases (a collection cycle while the caller's last RecvMsg on the stream is blocked must not change the outcome) and fault sequences: successful HTTP replies cut short at evenly spaced byte offsets (every offset in the thorough tier) with clean and abrupt connection ends - never success, delivered messages an intact prefix; " +
 	"non-trivial = fault case, or non-nil outcome with a message outside [A-Za-z ]*, or details, or an error after >=1 response; distinct by case hash"
 
 func TestC02(t *testing.T) {
